@@ -123,7 +123,17 @@ def do_slices(unit, scratch, mutate=None):
             raise Undecided('cannot read %s: %s' % (path, e))
         try:
             body, l0, l1 = slicer.slice_function(text, s['sig'], s.get('which', 0))
-            if s.get('until'):
+            if s.get('from'):
+                # statement-range slice: from the first match of 'from' (inclusive) to the first later match of 'until'
+                # (exclusive), wrapped in braces; only that range of the function is under contract
+                m0 = re.search(s['from'], body)
+                if not m0:
+                    raise slicer.ExtractionError('region start /%s/ not found in %s' % (s['from'], s['name']))
+                m1 = re.search(s['until'], body[m0.start():])
+                if not m1:
+                    raise slicer.ExtractionError('region end /%s/ not found in %s' % (s['until'], s['name']))
+                body = '{\n  ' + body[m0.start():m0.start() + m1.start()] + '\n  ' + s.get('until_close', '') + '\n}'
+            elif s.get('until'):
                 # region slice: the body is cut at the first line matching the marker (a comment in the real text)
                 # and closed; everything after the marker is NOT under contract (stated in the unit's assumptions)
                 m_ = re.search(s['until'], body)
